@@ -16,6 +16,7 @@
   lengths `>= INT_MAX - 1`, so every value held can be reported by `json_object_get_string_len` (an
   `int`); this bound is part of the representation invariant and all four theorems hold at full strength.
 -/
+import JsonC.Lemmas.TranslatedStr
 import JsonC.Lemmas.StrStore
 
 namespace JsonC.StrStore
